@@ -17,7 +17,23 @@ var bases = []uint64{0, 0x1000, 1<<32 - 24, 1 << 63, 1<<64 - 64}
 func run(c *mon.Case) {
 	r := c.Rng
 	base := bases[r.Intn(len(bases))]
-	const win = 48
+	win := 48
+	big := r.Intn(6) == 0
+	if big {
+		// a wide window: reads of up to 255 bytes composed of many stored values, pieces
+		// beginning 32 and more bytes into the read
+		win = 280
+		if base > 1<<63 {
+			base = 1<<64 - 400
+		}
+		c.Count("wide_window_histories", 1)
+	}
+	lw := func(n int) int { // width of a read
+		if big && r.Intn(2) == 0 {
+			return 33 + r.Intn(223)
+		}
+		return 1 + r.Intn(n)
+	}
 	var hist []string
 	sh := memchk.NewShadow(nil)
 	k := &memchk.Checker{C: c, Prefix: "C14", Mem: memory.NewSparse(), Sh: sh,
@@ -85,8 +101,8 @@ func run(c *mon.Case) {
 				case 4:
 					w = o.w
 				}
-				if addr >= base+win {
-					addr = base + win - 1
+				if addr >= base+uint64(win) {
+					addr = base + uint64(win) - 1
 				}
 				c.Count("stores_of_an_earlier_value", 1)
 			}
@@ -100,7 +116,7 @@ func run(c *mon.Case) {
 				return
 			}
 		case x < 85:
-			w := 1 + r.Intn(12)
+			w := lw(12)
 			if r.Intn(10) == 0 {
 				w = 1 + r.Intn(40)
 			}
@@ -119,7 +135,7 @@ func run(c *mon.Case) {
 		// probes after every operation
 		for i := 0; i < probes; i++ {
 			addr := base + uint64(r.Intn(win))
-			w := 1 + r.Intn(12)
+			w := fit(addr, lw(12))
 			if !k.Load(addr, w) {
 				return
 			}
@@ -186,7 +202,7 @@ func main() {
 			}
 			return 2000
 		},
-		RequiredCounts: []string{"loads_nontrivial", "loads_missing", "stores", "stores_of_an_earlier_value"},
+		RequiredCounts: []string{"wide_window_histories", "loads_nontrivial", "loads_missing", "stores", "stores_of_an_earlier_value"},
 		Run:            run,
 	})
 }
